@@ -116,7 +116,7 @@ class Report:
             got = self.counts.get(rule, 0)
             if got < n:
                 self.violation('%s / VACUITY / %s' % (self.pid, rule), 'VACUITY',
-                               'rule %s matched %d instance(s), fewer than the %d confirmed by reading: the rule may have gone blind' % (rule, got, n))
+                               'rule %s matched %d instance(s), fewer than its floor of %d (derived from the instances counted on the pinned tree): the rule may have gone blind' % (rule, got, n))
 
 XVAL = None
 
